@@ -61,7 +61,18 @@ def run(R):
         # (b) list encoder
         ve = ty.body(re.compile(r'<tonic::Status as richer_error::StatusExt>::with_error_details_vec_and_metadata$'))
         R.saw(ve)
-        sws = [bb for bb in sorted(ve.live_blocks()) if ve.term(bb)['k'] == 'switch' and (lambda o: o[0] == 'discr' and (o[3] or '').endswith('ErrorDetail'))(ve.origin(ve.term(bb)['on']))]
+        def ed_switches(b_):
+            return [bb for bb in sorted(b_.live_blocks()) if b_.term(bb)['k'] == 'switch' and (lambda o: o[0] == 'discr' and (o[3] or '').endswith('ErrorDetail'))(b_.origin(b_.term(bb)['on']))]
+        sws = ed_switches(ve)
+        if not sws:
+            # the per-variant packing may sit in a closure of the encoder or in an `impl IntoAny for ErrorDetail` it maps over
+            cands = [b_ for b_ in family(ty, ve)[1:] if ed_switches(b_)]
+            cands += [b_ for b_ in ty.bodies if b_.kind == 'fn' and re.search(r'ErrorDetail as (richer_error::)?IntoAny>::into_any$', b_.path) and ed_switches(b_)]
+            uses = any(t_.get('name') == 'into_any' or any(isinstance(a_, dict) and a_.get('k', {}).get('fn', '').endswith('into_any') for a_ in t_['args']) for m_ in family(ty, ve) for bb_, t_ in m_.calls())
+            if len(cands) == 1 and uses:
+                ve = cands[0]
+                R.saw(ve)
+                sws = ed_switches(ve)
         if len(sws) != 1:
             raise CheckError('UNRECOGNISED: %d switches on ErrorDetail in the list encoder' % len(sws))
         o = ve.origin(ve.term(sws[0])['on'])
@@ -177,9 +188,36 @@ def run(R):
             raise CheckError('ANCHOR-MISSING: From<RetryInfo> for pb::RetryInfo matched %d bodies' % len(cb))
         b = cb[0]
         R.saw(b)
+        def max_pb(t_):
+            """is the term the wire maximum Duration{315576000000, 999999999} (literal or a const holding it)"""
+            t_ = strip_refs(t_)
+            if t_[0] == 'agg':
+                return [const_val(x) for x in t_[2]] == [315576000000, 999999999]
+            cd = constdef(t_)
+            if cd:
+                cbs = [x for x in ty.bodies if x.kind == 'const' and x.path == cd]
+                if cbs:
+                    rt_ = [mirlib.simplify(x) for _, x in mirlib.returned_terms(cbs[0])]
+                    return bool(rt_) and all(strip_refs(x)[0] == 'agg' and [const_val(y) for y in strip_refs(x)[2]] == [315576000000, 999999999] for x in rt_)
+            return False
         meta = {}
         seen = set()
-        for cons, path in mirlib.path_rows(b, meta=meta):
+        # combinator spelling: value.retry_delay.map(|d| prost_types::Duration::try_from(d).unwrap_or(MAX))
+        whole = [x for _, rt in mirlib.returned_terms(b) for x in built_parts(mirlib.simplify(rt)) if x[1].get('adt', '').endswith('RetryInfo')]
+        fv0 = strip_refs(mirlib.simplify(whole[0][2][whole[0][1]['fields'].index('retry_delay')])) if len(whole) == 1 else ('?',)
+        if is_call(fv0, name='map') and mentions_field(fv0[2][0], 'retry_delay') and strip_refs(fv0[2][1])[0] == 'agg' and 'def' in strip_refs(fv0[2][1])[1]:
+            cbd = ty.body(re.compile('^' + re.escape(strip_refs(fv0[2][1])[1]['def']) + '$'))
+            R.saw(cbd)
+            rts = [strip_refs(mirlib.simplify(x)) for _, x in mirlib.returned_terms(cbd)]
+            okc = len(rts) == 1 and is_call(rts[0], name='unwrap_or') and is_call(strip_refs(rts[0][2][0]), name='try_from') and 'Duration' in str(strip_refs(rts[0][2][0])[4].get('resolved') or strip_refs(rts[0][2][0])[4].get('fn')) and arg_root(strip_refs(rts[0][2][0])[2][0]) == 2
+            R.check(okc, 'C20.R3b', 'representable->try_from', site(cbd), 'Option::map(|d| prost_types::Duration::try_from(d).unwrap_or(..)): %r' % okc)
+            R.check(okc and max_pb(rts[0][2][1]), 'C20.R3b', 'too-large->max', site(cbd), 'the fallback is Duration{seconds: 315576000000, nanos: 999999999}')
+            R.ok('C20.R3b', 'none->none', site(b), 'Option::map keeps None')
+            R.ok('C20.R3b', 'rows', site(b), 'combinator form: None / Ok / Err decided by Option::map and Result::unwrap_or')
+            rows_ = []
+        else:
+            rows_ = mirlib.path_rows(b, meta=meta)
+        for cons, path in rows_:
             v = cons_view(cons, meta)
             terms = meta.get('__terms__', {})
             src = view_get(v, lambda k: k.startswith('discr(') and terms.get(k) and mentions_field(terms[k], 'retry_delay') and not term_contains(terms[k], lambda x: is_call(x, name='try_from')))
@@ -197,11 +235,12 @@ def run(R):
                 R.check(okc, 'C20.R3b', 'representable->try_from', st, 'a representable delay is the Ok payload of prost_types::Duration::try_from(delay): %s' % show(inner)[:100])
             elif src == 'Some' and conv == 'Err':
                 inner = strip_refs(fv[2][0]) if fv[0] == 'agg' and fv[1].get('variant') == 'Some' else ('?',)
-                okm = inner[0] == 'agg' and [const_val(x) for x in inner[2]] == [315576000000, 999999999]
+                okm = max_pb(inner)
                 R.check(okm, 'C20.R3b', 'too-large->max', st, 'an unrepresentable delay becomes Duration{seconds: 315576000000, nanos: 999999999}: %s' % show(inner)[:100])
             else:
                 R.bad('C20.R3b', 'conversion-shape', st, 'a path builds retry_delay = %s without going through prost_types::Duration::try_from (source %r, conversion %r): a hand-written range test decides which delays are altered' % (show(fv)[:80], src, conv), kind='UNRECOGNISED')
-        R.check({('None', None), ('Some', 'Ok'), ('Some', 'Err')} <= seen, 'C20.R3b', 'rows', site(b), 'rows seen: %r' % sorted(map(str, seen)))
+        if rows_:
+            R.check({('None', None), ('Some', 'Ok'), ('Some', 'Err')} <= seen, 'C20.R3b', 'rows', site(b), 'rows seen: %r' % sorted(map(str, seen)))
 
     # ---------------------------------------------------------------- R6 a status recovered from an error chain keeps its details
     R.describe('C20.R6', 'Status::from_error / try_from_error: the Status found in a source chain is copied with its code, message, details and metadata (Status is not Clone; only `source` is left behind)')
@@ -289,7 +328,12 @@ def run(R):
             R.ok('C20.R5', 'no-panic-sites', '', '%d bodies reachable from %d decoder/getter entry points have no panic site' % (n, len(roots)))
         for nm in ('check_error_details', 'check_error_details_vec'):
             b = ty.body(re.compile(r'<tonic::Status as richer_error::StatusExt>::%s$' % nm))
-            R.check(len(b.calls(name='decode')) == 1 and len(b.calls(name='from_residual')) >= 1, 'C20.R5', '%s:decode?' % nm, site(b), 'pb::Status::decode(self.details())? then delegate')
+            dcs = b.calls(name='decode')
+            prop = len(b.calls(name='from_residual')) >= 1
+            if not prop and len(dcs) == 1:
+                # spelled as a match: Err(e) => Err(e)
+                prop = any(term_contains(b.origin(o_[0]), lambda x: x and x[0] == 'variant' and x[2] == 'Err' and term_contains(x, lambda y: is_call(y, name='decode'))) for bb_, i_, p_, a_, o_ in returned_aggs(b, 'result::Result', 'Err'))
+            R.check(len(dcs) == 1 and prop, 'C20.R5', '%s:decode?' % nm, site(b), 'pb::Status::decode(self.details()): its error is propagated, then delegate')
             dc = b.calls(name='decode')
             R.check(bool(dc) and mentions_call(b.origin(dc[0][1]['args'][0]), name='details'), 'C20.R5', '%s:reads-status-details' % nm, site(b), 'decodes self.details()')
         for nm in ('get_error_details', 'get_error_details_vec'):
